@@ -22,6 +22,8 @@
                               eval_number to the Float of the same rounding, in eval_complex to that real number; with at most
                               28 digits in all, eval_decimal returns exactly the written decimal, and its negation after a prefix
                               minus (the shape Display prints for a Decimal)
+      C19_signed_literal_end_to_end
+                              a prefix minus on either shape is the exact sign flip (the shape Display prints for negative doubles)
     For eval_f64 / eval_decimal / eval_complex the print / re-read round trip relies
     on std Display printing a shape this grammar reads and on std's own round-trip guarantee: both are
     exercised by the correspondence (format!("{}", v) of pool and random values fed back in). *)
@@ -117,6 +119,21 @@ Proof.
     + exact (decimal_point_literal_run D p ip fp Hne Hi Hf Hl).
 Qed.
 Print Assumptions C19_literal_end_to_end.
+
+(** the printed form of negative results: a prefix minus on either literal shape is the exact sign flip of the literal's value
+    (eval_f64: both shapes; eval_number: the Float shape -- the Integer shape is C19_number_display_roundtrip) *)
+Theorem C19_signed_literal_end_to_end :
+  forall ip fp, ip <> [] -> forallb is_digit ip = true -> forallb is_digit fp = true ->
+    let v := f64_of_decimal (digits_val 0%N (ip ++ fp)) (N.of_nat (length fp)) in
+    (forall (L : libm) p, run_f64 L (45%N :: ip) p = Ok (fneg (f64_of_decimal (digits_val 0%N ip) 0)) /\
+                          run_f64 L (45%N :: ip ++ ch_dot :: fp) p = Ok (fneg v)) /\
+    (forall (L : libm) p, run_num L (45%N :: ip ++ ch_dot :: fp) p = Ok (Flt (fneg v))).
+Proof.
+  intros ip fp Hne Hi Hf v. split.
+  - intros L p. exact (f64_signed_literal_run L p ip fp Hne Hi Hf).
+  - intros L p. exact (number_signed_point_literal_run L p ip fp Hne Hi Hf).
+Qed.
+Print Assumptions C19_signed_literal_end_to_end.
 
 Theorem C19_number_literal :
   forall t im, conv_num (LNum t im) = if has_point t then option_map Flt (parse_f64 t) else option_map Int (parse_i64 t).
